@@ -4,8 +4,8 @@
    value, current parameters of all functions); it is a Section variable, its properties are named
    hypotheses (oracle contracts), validated numerically by tools/harness/c14.py. *)
 From Coq Require Import List Arith Bool Reals.
-From V.model Require Import DepProtocol.
-From V.proofs Require Import DepProtocolProofs.
+From V.model Require Import DepProtocol HeldParams.
+From V.proofs Require Import DepProtocolProofs HeldParamsProofs.
 Import ListNotations.
 
 Section Protocol.
@@ -135,6 +135,74 @@ Section Bounds.
   Proof. exact (fit_within_declared T neg_inf pos_inf leb zero engine_result engine_feasible). Qed.
 End Bounds.
 
+(* ---- parameters held by equal bounds (fit_function / _fit_with_fixed_parameters, the curve_fit path as repaired):
+   model/HeldParams.v; `curve_fit sigma box embed p0` is the optimiser oracle ---- *)
+Section Held.
+  Variable T : Type.
+  Variables neg_inf pos_inf : T.
+  Variable eqb leb : T -> T -> bool.
+  Variable curve_fit : oracle T.
+
+  (* a parameter whose declared bounds have equal ends has EXACTLY that value after fitting, whatever the optimiser returns *)
+  Theorem C14_held_parameters_exact : forall hw bs p0 i v, length p0 = length bs ->
+    nth_error (fixed_of T eqb bs) i = Some (Some v) ->
+    nth_error (fit_function T neg_inf pos_inf eqb curve_fit hw (Some bs) p0) i = Some v.
+  Proof. exact (held_exactly T neg_inf pos_inf eqb curve_fit). Qed.
+
+  (* the other parameters are what the optimiser returned for the sub-problem: sigma iff weights, the box of THEIR bounds,
+     THEIR start values, varied inside a vector that carries the held values (next theorem) *)
+  Theorem C14_free_parameters_from_subproblem : forall hw bs p0, length p0 = length bs -> has_fixed T eqb bs = true ->
+    let fx := fixed_of T eqb bs in
+    let sub := curve_fit hw (Some (convert_bounds T neg_inf pos_inf (select_free T fx bs))) (scatter T fx p0) (select_free T fx p0) in
+    select_free T fx p0 <> [] -> length sub = length (select_free T fx p0) ->
+    select_free T fx (fit_function T neg_inf pos_inf eqb curve_fit hw (Some bs) p0) = sub /\
+    length (fit_function T neg_inf pos_inf eqb curve_fit hw (Some bs) p0) = length bs.
+  Proof. exact (free_from_subproblem T neg_inf pos_inf eqb curve_fit). Qed.
+  Theorem C14_embedding_keeps_held_values : forall bs p0 fv, length p0 = length bs ->
+    let fx := fixed_of T eqb bs in
+    length fv = length (select_free T fx p0) ->
+    select_free T fx (scatter T fx p0 fv) = fv /\
+    (forall i v, nth_error fx i = Some (Some v) -> nth_error (scatter T fx p0 fv) i = Some v) /\
+    length (scatter T fx p0 fv) = length bs.
+  Proof. exact (embedding_spec T eqb). Qed.
+
+  (* within ALL declared bounds -- held or not -- under the optimiser contract (stays in the box it is handed, returns as many
+     values as start values) and an order that relates equal ends *)
+  Theorem C14_held_fit_within_declared_bounds :
+    (forall a b, eqb a b = true -> leb a a = true /\ leb a b = true) ->
+    forall hw bs p0, length p0 = length bs ->
+    (forall box embed fp0, in_box T leb box (curve_fit hw (Some box) embed fp0) /\
+                           length (curve_fit hw (Some box) embed fp0) = length fp0) ->
+    in_declared T leb bs (fit_function T neg_inf pos_inf eqb curve_fit hw (Some bs) p0).
+  Proof. exact (result_in_declared_bounds T neg_inf pos_inf eqb leb curve_fit). Qed.
+
+  (* every parameter held: the result is the list of held values (the optimiser is not consulted);
+     none held: the plain curve_fit call of C14_dispatch_paths *)
+  Theorem C14_all_parameters_held : forall hw bs p0, length p0 = length bs -> bs <> [] ->
+    (forall b, In b bs -> held T eqb b <> None) ->
+    forall i b, nth_error bs i = Some b ->
+      nth_error (fit_function T neg_inf pos_inf eqb curve_fit hw (Some bs) p0) i = Some (match held T eqb b with Some v => v | None => neg_inf end).
+  Proof. exact (all_held T neg_inf pos_inf eqb curve_fit). Qed.
+  Theorem C14_no_parameter_held : forall hw bs p0, has_fixed T eqb bs = false ->
+    fit_function T neg_inf pos_inf eqb curve_fit hw (Some bs) p0 =
+    curve_fit hw (Some (convert_bounds T neg_inf pos_inf bs)) (fun p => p) p0.
+  Proof. exact (none_held T neg_inf pos_inf eqb curve_fit). Qed.
+End Held.
+
+(* the order hypothesis of C14_held_fit_within_declared_bounds holds for binary64 comparisons *)
+Theorem C14_binary64_equal_ends_ordered : forall a b, PrimFloat.eqb a b = true -> PrimFloat.leb a a = true /\ PrimFloat.leb a b = true.
+Proof. exact prim_eqb_leb. Qed.
+
+(* non-vacuity: a + b x + c x^2 with b held at 0.25 between a free and a lower-bounded parameter (nat stands for the numbers) *)
+Example C14_held_nonvacuous :
+  let bs := [(None, None); (Some 25, Some 25); (Some 3, None)] in
+  let cf := fun (_ : bool) (_ : option (list nat * list nat)) (_ : list nat -> list nat) (fp0 : list nat) => map (fun v => v + 100) fp0 in
+  has_fixed nat Nat.eqb bs = true /\
+  fit_function nat 0 1000 Nat.eqb cf false (Some bs) [1; 1; 7] = [101; 25; 107] /\
+  convert_bounds nat 0 1000 (select_free nat (fixed_of nat Nat.eqb bs) bs) = ([0; 3], [1000; 1000]) /\
+  scatter nat (fixed_of nat Nat.eqb bs) [1; 1; 7] [8; 9] = [8; 25; 9].
+Proof. repeat split. Qed.
+
 (* shapes linear in their parameters (inactive bounds, no constraints): a stationary point of the (weighted)
    squared residual -- a solution of the normal equations -- has the smallest residual of ALL parameter
    vectors, and with independent columns it is the only minimiser *)
@@ -196,6 +264,13 @@ Print Assumptions C14_conditional_fit_loop.
 Print Assumptions C14_optimal_partial.
 Print Assumptions C14_bounds_conversion.
 Print Assumptions C14_within_bounds_and_constraints.
+Print Assumptions C14_held_parameters_exact.
+Print Assumptions C14_free_parameters_from_subproblem.
+Print Assumptions C14_embedding_keeps_held_values.
+Print Assumptions C14_held_fit_within_declared_bounds.
+Print Assumptions C14_all_parameters_held.
+Print Assumptions C14_no_parameter_held.
+Print Assumptions C14_binary64_equal_ends_ordered.
 Print Assumptions C14_linear_least_squares_unique.
 Print Assumptions C14_executable_model_is_generic.
 Print Assumptions C14_history_executable.
